@@ -238,6 +238,76 @@ fn tok_target(op: &Op) -> Option<Id> {
     }
 }
 
+/// the principal table of DESIGN.md Appendix A, read off the *implementation's* own queries:
+/// Some(true) = sender is a principal of this message, Some(false) = it is not, None = public
+pub fn authorised(c: &Chain, sender: Id, target: Id, call: &Call) -> Option<bool> {
+    use cosmwasm_std::testing::MockApi;
+    use cosmwasm_std::Api;
+    let api = MockApi::default();
+    let hum = |x: &cosmwasm_std::CanonicalAddr| api.addr_humanize(x).map(|a| id_of(a.as_str())).unwrap_or(0);
+    let hub_cfg: Option<basset::hub::ConfigResponse> = c.q(HUB, &basset::hub::QueryMsg::Config {}).ok();
+    let oid = |o: &Option<String>| o.as_ref().map(|s| id_of(s));
+    match (target, call) {
+        (HUB, Call::Hub(m)) => {
+            let cfg = hub_cfg?;
+            let owner = id_of(&cfg.owner);
+            let no: Option<basset::hub::NewOwnerResponse> = c.q(HUB, &basset::hub::QueryMsg::NewOwner {}).ok();
+            match m {
+                HubMsg::UConfig(..) | HubMsg::UParams(..) | HubMsg::SetOwner(..) => Some(sender == owner),
+                HubMsg::Accept => Some(Some(sender) == no.map(|n| id_of(&n.new_owner))),
+                HubMsg::BondRw => Some(oid(&cfg.reward_dispatcher_contract) == Some(sender)),
+                HubMsg::Redel(..) => Some(oid(&cfg.validators_registry_contract) == Some(sender)),
+                HubMsg::Ugi => Some(sender == id_of(&cfg.update_reward_index_addr) || oid(&cfg.validators_registry_contract) == Some(sender)),
+                HubMsg::SwapHook => Some(sender == HUB),
+                HubMsg::ClaimAirdrop => Some(oid(&cfg.airdrop_registry_contract) == Some(sender)),
+                HubMsg::Receive(..) => Some(oid(&cfg.bsei_token_contract) == Some(sender) || oid(&cfg.stsei_token_contract) == Some(sender)),
+                _ => None,
+            }
+        }
+        (REWARD, Call::Reward(m)) => {
+            let st = c.stores.get(&REWARD)?;
+            let cfg = basset_sei_reward::state::read_config(st).ok()?;
+            let no = basset_sei_reward::state::read_new_owner(st).ok()?;
+            let hc = hub_cfg;
+            match m {
+                RewMsg::UConfig(..) | RewMsg::SetOwner(..) | RewMsg::USwapDenom(..) => Some(sender == hum(&cfg.owner)),
+                RewMsg::Accept => Some(sender == hum(&no.new_owner_addr)),
+                RewMsg::Swap | RewMsg::Ugi => Some(hc.and_then(|h| oid(&h.reward_dispatcher_contract)) == Some(sender)),
+                RewMsg::Inc(..) | RewMsg::Dec(..) => Some(hc.and_then(|h| oid(&h.bsei_token_contract)) == Some(sender)),
+                RewMsg::Claim(..) => None,
+            }
+        }
+        (DISP, Call::Disp(m)) => {
+            let cfg: basset::dispatcher::ConfigResponse = c.q(DISP, &basset_sei_rewards_dispatcher::msg::QueryMsg::Config {}).ok()?;
+            let no: basset::dispatcher::NewOwnerResponse = c.q(DISP, &basset_sei_rewards_dispatcher::msg::QueryMsg::NewOwner {}).ok()?;
+            match m {
+                DispMsg::Swap(..) | DispMsg::Dispatch => Some(sender == id_of(&cfg.hub_contract)),
+                DispMsg::Accept => Some(sender == id_of(&no.new_owner)),
+                _ => Some(sender == id_of(&cfg.owner)),
+            }
+        }
+        (REG, Call::Reg(m)) => {
+            let st = c.stores.get(&REG)?;
+            let cfg = basset_sei_validators_registry::registry::CONFIG.load(st).ok()?;
+            let no = basset_sei_validators_registry::registry::read_new_owner(st).ok()?;
+            match m {
+                RegMsg::Add(..) => Some(sender == hum(&cfg.owner) || sender == hum(&cfg.hub_contract)),
+                RegMsg::Remove(..) | RegMsg::UConfig(..) | RegMsg::SetOwner(..) => Some(sender == hum(&cfg.owner)),
+                RegMsg::Accept => Some(sender == hum(&no.new_owner_addr)),
+                RegMsg::Redelegations(..) => None,
+            }
+        }
+        (t, Call::Tok(m)) if t == BSEI || t == STSEI => match m {
+            TokMsg::Mint(..) => Some(c.token_minter(t) == Some(sender)),
+            TokMsg::Burn(..) => Some(sender == HUB),
+            TokMsg::UMinter(..) => Some(c.token_minter(t) == Some(sender)),
+            TokMsg::UMarketing => Some(false),
+            _ => None,
+        },
+        _ => None,
+    }
+}
+
 pub struct StepCtx<'a> {
     pub pre: &'a Snap,
     pub post: &'a Snap,
@@ -262,6 +332,26 @@ pub fn check_step(cx: &StepCtx) -> Vec<Violation> {
     if is_tx && !ok {
         if cx.chain_pre.observe() != cx.chain_post.observe() {
             out.push(v("C10", "failed-tx-changed-state", format!("{}: a failed transaction changed the state", kind)));
+        }
+    }
+
+    // ---------------------------------------------------------------- C10: privileged messages
+    if let Op::Tx { sender, target, call, .. } = op {
+        if let Some(false) = authorised(cx.chain_pre, *sender, *target, call) {
+            if ok {
+                out.push(v("C10", &format!("unauthorised-succeeded:{}", kind), format!("{} by {} (not a principal) succeeded", kind, sender)));
+            }
+        }
+        // write-once token addresses
+        if let Call::Hub(HubMsg::UConfig(f)) = call {
+            if ok && *target == HUB {
+                let pre_cfg: Option<basset::hub::ConfigResponse> = cx.chain_pre.q(HUB, &basset::hub::QueryMsg::Config {}).ok();
+                if let Some(pc) = pre_cfg {
+                    if (f[2].is_some() && pc.bsei_token_contract.is_some()) || (f[3].is_some() && pc.stsei_token_contract.is_some()) {
+                        out.push(v("C10", "token-address-changed", "UpdateConfig replaced a token address that was already set".into()));
+                    }
+                }
+            }
         }
     }
 
